@@ -2,7 +2,7 @@
    shared with the PairState layer. Dict-valued members travel as arrays of `[key, value]` pairs
    so that their order survives (Lean's `Json.obj` is a sorted map). -/
 import HapModel.Drv.Util
-import HapModel.Encoder
+import HapModel.EncoderJson
 namespace Hap.Drv.Enc
 open Lean Hap Hap.Drv Hap.PairState Hap.Encoder
 
@@ -59,33 +59,34 @@ def jacc (a : AccState) : Json :=
 def jpairs (l : List (String × Json)) : Json :=
   Json.arr (l.map fun e => Json.arr #[Json.str e.1, e.2]).toArray
 
-/-- the document in the shape of the file, dicts as pair arrays -/
-def jdoc (d : Doc) : Json :=
-  Json.mkObj [
-    ("mac", Json.str d.mac),
-    ("config_version", Json.num (JsonNumber.fromInt d.configVersion)),
-    ("paired_clients", jpairs (d.pairedClients.map fun e => (e.1, Json.str e.2))),
-    ("client_properties", jopt (fun cp => jpairs (cp.map fun e => (e.1, Json.mkObj [("permissions", Json.num e.2)]))) d.clientProperties),
-    ("accessories_hash", jopt Json.str d.accessoriesHash),
-    ("client_uuid_to_bytes", jopt (fun m => jpairs (m.map fun e => (e.1, Json.str e.2))) d.clientUuidToBytes),
-    ("private_key", Json.str d.privateKey),
-    ("public_key", Json.str d.publicKey)]
+/-- a JSON value of the state-file model in the line protocol: the top-level object as an object, the
+    dict-valued members (depth 1) as arrays of `[key, value]` pairs (order kept), deeper objects as objects -/
+partial def jvToJson (depth : Nat) : JV → Json
+  | .null => Json.null
+  | .num n => Json.num (JsonNumber.fromInt n)
+  | .str s => Json.str s
+  | .obj m =>
+    if depth = 1 then Json.arr (m.map fun e => Json.arr #[Json.str e.1, jvToJson (depth + 1) e.2]).toArray
+    else Json.mkObj (m.map fun e => (e.1, jvToJson (depth + 1) e.2))
 
-def optPairs (j : Json) (k : String) (f : Json → Json → R α) : R (Option (List α)) :=
-  match j.getObjVal? k with
-  | .ok .null => pure none
-  | .error _ => pure none
-  | .ok _ => do pure (some (← pairsOf j k f))
+/-- the inverse reading of a document sent by the harness (`none`: a value no state file holds) -/
+partial def jsonToJV (depth : Nat) : Json → Option JV
+  | .null => some .null
+  | .str s => some (.str s)
+  | .num n => if n.exponent = 0 then some (.num n.mantissa) else none
+  | .arr a =>
+    if depth = 1 then
+      (a.toList.mapM fun it =>
+        match it with
+        | Json.arr #[Json.str k, v] => (jsonToJV (depth + 1) v).map fun x => (k, x)
+        | _ => none).map JV.obj
+    else none
+  | .obj m =>
+    (m.toList.mapM fun (e : String × Json) => (jsonToJV (depth + 1) e.2).map fun x => (e.1, x)).map JV.obj
+  | .bool _ => none
 
-def docOf (j : Json) : R Doc := do
-  pure {
-    mac := ← getStr j "mac", configVersion := ← getInt j "config_version",
-    pairedClients := ← pairsOf j "paired_clients" fun k v => do pure ((← asStr k), (← asStr v)),
-    clientProperties := ← optPairs j "client_properties" fun k v => do
-      pure ((← asStr k), (← getNat v "permissions")),
-    accessoriesHash := ← optStr j "accessories_hash",
-    clientUuidToBytes := ← optPairs j "client_uuid_to_bytes" fun k v => do pure ((← asStr k), (← asStr v)),
-    privateKey := ← getStr j "private_key", publicKey := ← getStr j "public_key" }
+/-- the state file `persist` writes for `a`, in the line-protocol shape -/
+def jfile (a : AccState) : Json := jvToJson 0 (persistJ a)
 
 def handle (j : Json) : R Json := do
   let op ← getStr j "op"
@@ -93,21 +94,21 @@ def handle (j : Json) : R Json := do
   | "persist" =>
     let st ← getObj j "state"
     let a ← identOf st (← pstateOf st)
-    pure (Json.mkObj [("doc", jdoc (persist a))])
+    pure (Json.mkObj [("doc", jfile a)])
   | "load" =>
     -- a required member that is missing / of the wrong type is a KeyError / TypeError in Python
-    match docOf (← getObj j "doc") with
-    | .error _ => pure (Json.mkObj [("err", true)])
-    | .ok d =>
-      match load d with
+    match jsonToJV 0 (← getObj j "doc") with
+    | none => pure (Json.mkObj [("err", true)])
+    | some d =>
+      match loadJ d with
       | some a => pure (Json.mkObj [("state", jacc a)])
       | none => pure (Json.mkObj [("err", true)])
   | "roundtrip" =>
     let st ← getObj j "state"
     let a ← identOf st (← pstateOf st)
-    let d := persist a
-    pure (Json.mkObj [("doc", jdoc d), ("loaded", jopt jacc (load d)),
-      ("same", Json.bool (load d = some a))])
+    let d := persistJ a
+    pure (Json.mkObj [("doc", jvToJson 0 d), ("loaded", jopt jacc (loadJ d)),
+      ("same", Json.bool (loadJ d = some a))])
   | "uuid_str" => pure (Json.mkObj [("ok", Json.str (strOfUuid (← uuidOfDec (← getStr j "u"))))])
   | "uuid_parse" => pure (Json.mkObj [("ok", jopt juuid (uuidOfStr (← getStr j "s")))])
   | _ => throw s!"encoder: unknown op {op}"
